@@ -71,3 +71,11 @@ CLAIMED["C18"] = dict(
   note="Trusted: the C01/C02 oracles in pv.history. DMM channels are matched by declaration position (their names derive from device ids).",
   technique="property-based testing: generated programs and device pairs, metamorphic relation between original and switched sequence")
 NOT_YET = {}
+CLAIMED["C15"] = dict(
+  text="Generated EOM histories on channels with generated EOM configurations (limiting/controlled beams, shift coefficients, custom buffers, bandwidths): every EOM pulse equals the latest setpoint, idle detuning equals the off-detuning recomputed with own light-shift arithmetic (closest allowed option), buffer lengths and positions; drift correction by a metamorphic twin (same pulses on an EOM-free channel with zero idle detuning) through the QuTiP emulator within 5e-4. Exploration.",
+  note="Trusted: light-shift formulas of the RydbergEOM documentation; Pulse.fall_time (C14); QuTiP solver at tolerance 1e-10. disable_eom_mode with a custom buffer time is only checked for its length.",
+  technique="property-based testing: generated histories against a reference EOM model + metamorphic twin on the emulator")
+CLAIMED["C11"] = dict(
+  text="Generated small sequences (1-3 atoms, every basis combination, DMM/SLM, idle periods) x evaluation-time settings x sampling rates x noise models through QutipEmulator: norm / trace / Hermiticity / positivity of every stored state; generated Rabi experiments per basis against sin^2(Omega t/2) and zero drive; QutipResult/QutipState bitstring distributions against an own marginalisation for every basis incl. 3-level and leakage states, detection-error and state-preparation-error rates (7 sigma); legacy emulator vs QutipBackendV2 states at the same times; every duration 4..3000 ns on the V2 backend. Exploration + exhaustive duration sweep.",
+  note="Trusted: QuTiP solvers at their default tolerances (tolerance 1e-5 + 3e-6/ns on norm/trace/fidelity; Rabi 1e-2), numpy RNG seeded per case with 7-sigma statistical bounds. Sequences measured in a basis that carries no pulse are excluded (the emulator refuses them).",
+  technique="property-based testing: generated sequences/configurations with invariant, analytic, statistical and differential (legacy vs V2) oracles")
